@@ -61,6 +61,9 @@ DelivCats(m) ==
                   \* (a wrong body handed out by a flight that several clients shared is also a coalescing failure)
                   ELSE IF m.src = "store" THEN (IF WasFollower(m.c) \/ Cardinality(last') > 1 THEN {"C01", "C05"} ELSE {"C01"})
                   ELSE {"C08"})
+            \* (a body that ends in a read error is an answer whose connection was dropped half-way: the origin's good
+            \* answer did not reach the client -- C09 as well as whatever the missing bytes mean above)
+            \cup (IF okStatus /\ m.status \in {200, 206} /\ creq[m.c].kind # "head" /\ o.trunc THEN {"C09"} ELSE {})
             \cup (IF okStatus /\ m.label # "ANY" /\ m.status \in {200, 206} /\ ((o.xcache = "HIT") # (m.label = "HIT"))
                   THEN {"C03"} ELSE {})
             \cup (IF okStatus /\ m.label \in {"HIT", "REVALIDATED"} /\ m.src = "store" /\
@@ -173,7 +176,7 @@ TReset ==
     /\ now' = 0 /\ store' = [r \in Res |-> NoEntry] /\ flight' = [r \in Res |-> NoFlight]
     /\ origin' = [r \in Res |-> [ver |-> Line.origin[r].ver, form |-> Line.origin[r].form, val |-> Line.origin[r].val]]
     /\ creq' = [c \in Clients |-> Idle] /\ contacts' = [x \in 1..MaxX |-> NoContact] /\ nextX' = 1
-    /\ served' = [r \in Res |-> {}] /\ last' = {}
+    /\ served' = [r \in Res |-> {}] /\ last' = {} /\ pol' = [icc |-> IgnoreCC, fd |-> ForceDefault]
     /\ l' = l + 1 /\ bad' = [line |-> 0] /\ UNCHANGED bads /\ TLCSet(1, [l |-> l + 1, bad |-> TLCGet(1).bad, bads |-> bads])
 
 \* once a behaviour has shown a difference, schedule and reality have parted: its remaining lines
@@ -231,10 +234,17 @@ TraceInit ==
     /\ now = 0 /\ store = [r \in Res |-> NoEntry] /\ flight = [r \in Res |-> NoFlight]
     /\ origin = [r \in Res |-> [ver |-> 1, form |-> "none", val |-> "none"]]
     /\ creq = [c \in Clients |-> Idle] /\ contacts = [x \in 1..MaxX |-> NoContact] /\ nextX = 1
-    /\ served = [r \in Res |-> {}] /\ last = {}
+    /\ served = [r \in Res |-> {}] /\ last = {} /\ pol = [icc |-> IgnoreCC, fd |-> ForceDefault]
     /\ l = 1 /\ bad = [line |-> 0] /\ bads = <<>> /\ TLCSet(1, [l |-> 1, bad |-> [line |-> 0], bads |-> <<>>])
     /\ TLCSet(2, "init")
-TraceNext == TReset \/ TAfterBad \/ TInit \/ TNoop \/ TNoContact \/ TSend \/ TReply \/ TShift \/ TEvict \/ TUnlink \/ TChange \/ TDisc
+\* the driver has set the two config cells (the line carries the values it wrote); a line that repeats the values in force
+\* (reality never diverges here: the driver always executes the step) changes nothing
+TPolicy == /\ Is("policy") /\ Judging
+           /\ IF <<Line.icc, Line.fd>> # <<pol.icc, pol.fd>> THEN SetPolicy(Line.icc, Line.fd)
+              ELSE (UNCHANGED <<now, origin, store, flight, creq, contacts, nextX, served, pol>> /\ last' = {})
+           /\ Consume
+TraceNext == TReset \/ TPolicy
+             \/ ((TAfterBad \/ TInit \/ TNoop \/ TNoContact \/ TSend \/ TReply \/ TShift \/ TEvict \/ TUnlink \/ TChange \/ TDisc) /\ UNCHANGED pol)
 TraceSpec == TraceInit /\ [][TraceNext]_tvars
 Report == LET r == TLCGet(1) IN /\ PrintT(<<"TRACE-DBG", TLCGet(2)>>)
                                 /\ PrintT(<<"TRACE-ALL", r.bads>>)
